@@ -334,6 +334,7 @@ META['C09'] = {
 }
 JOBS['C09'] = [
     {'name': 'push_queue', 'harness': 'c09_push.c', 'units': ['term', 'sbuf'], 'defs': {}, 'expect_reach': ['end', 'overflow-checked']},
+    {'name': 'push_with_input_waiting', 'harness': 'c09_ahead.c', 'units': ['term', 'sbuf'], 'defs': {}, 'expect_reach': ['end']},
     {'name': 'repeat_vs_retype', 'harness': 'c09_rel.c', 'units': 'ALL', 'defs': {'quick': {'MODE': 0}, 'thorough': {'MODE': 0, 'NCNT': 3, 'TXTN': 2, 'JUNKALL': 1}}, 'expect_reach': ['end'], 'heavy': True,
      'timeout': {'quick': 280, 'thorough': 600}, 'max_steps': 80000000, 'validate': {'quick': 6, 'thorough': 12}},
     {'name': 'repeat_long_insert', 'harness': 'c09_rel.c', 'units': 'ALL', 'defs': {'MODE': 2}, 'expect_reach': ['end'],
